@@ -283,6 +283,8 @@ class ScriptedImpl:
         if hasattr(state, "cancelled"):
             state.cancelled += 1
         self._note("cancel", state.mname, state.pos, _auth_of(ctx), id(state))
+        # optional: client-directed logs emitted by the cancel hook
+        self._emit_logs(self.scripts[state.mname].get("cancel_logs", []), ctx.client_log)
 
 
 def _auth_of(ctx: CallContext | None) -> str:
@@ -381,11 +383,15 @@ def build(program: dict[str, Any]) -> tuple[type, ScriptedImpl]:
                 sig_p.append(f"{pn}: {ann}")
                 sig_i.append(f"{pn}: {ann}")
             kw.append(f"{pn!r}: {pn}")
-        sig_i.append("ctx: CallContext = None")
+        ctx_arg = "ctx"
+        if m.get("noctx"):
+            ctx_arg = "None"  # an implementation method that does not ask for a CallContext
+        else:
+            sig_i.append("ctx: CallContext = None")
         if m["kind"] == "unary":
             ret = "None" if m.get("ret") is None else tygen.src(m["ret"])
             pret = iret = ret
-            body = f"return self._unary({name!r}, {{{', '.join(kw)}}}, ctx)"
+            body = f"return self._unary({name!r}, {{{', '.join(kw)}}}, {ctx_arg})"
         else:
             base = "ExchangeState" if m["kind"] == "exchange" else "ProducerState"
             if m.get("raw_state"):
@@ -397,7 +403,7 @@ def build(program: dict[str, Any]) -> tuple[type, ScriptedImpl]:
                 pret, iret = f"Stream[{base}, Hdr]", f"Stream[{scls}, Hdr]"
             else:
                 pret, iret = f"Stream[{base}]", f"Stream[{scls}]"
-            body = f"return self._init({name!r}, {{{', '.join(kw)}}}, ctx)"
+            body = f"return self._init({name!r}, {{{', '.join(kw)}}}, {ctx_arg})"
         doc = m.get("doc")
         lines.append(f"    def {name}({', '.join(sig_p)}) -> {pret}:")
         if doc:
